@@ -2,6 +2,7 @@ package server
 
 import (
 	"context"
+	"sort"
 	"strings"
 
 	"go.lsp.dev/protocol"
@@ -15,18 +16,26 @@ func (s *Server) WorkspaceSymbol(ctx context.Context, params *protocol.Workspace
 
 	var symbols []protocol.SymbolInformation
 
+	// the set of open documents is a sync.Map: visit it in URI order so that
+	// the same workspace always yields the same list
+	contents := make(map[protocol.DocumentURI]string)
+	var uris []protocol.DocumentURI
 	s.documents.Range(func(key, value any) bool {
 		uri := key.(protocol.DocumentURI)
-		content := value.(string)
+		contents[uri] = value.(string)
+		uris = append(uris, uri)
+		return true
+	})
+	sort.Slice(uris, func(i, j int) bool { return uris[i] < uris[j] })
 
-		journal, _ := parser.Parse(content)
+	for _, uri := range uris {
+		journal, _ := parser.Parse(contents[uri])
 		if journal == nil {
-			return true
+			continue
 		}
 
 		symbols = append(symbols, extractSymbols(journal, uri, query)...)
-		return true
-	})
+	}
 
 	return symbols, nil
 }
